@@ -411,6 +411,63 @@ def build_robot(layout, H, opts):
         class Robot(Mid):
             c2: CompB1
         comps = ["c1", "c2"]
+    elif layout == "R5":
+        # two components of one and the same class
+        cnt = [0]
+
+        class CompTwin:
+            x = will_reset_to(0)
+            y = will_reset_to("dflt")
+
+            def __init__(self):
+                cnt[0] += 1
+                self.NAME = f"c{cnt[0]}"
+                H.log.add("ctor", self.NAME)
+                self.plain = "init"
+
+            setup = CompA.setup
+            on_enable = CompA.on_enable
+            on_disable = CompA.on_disable
+            execute = CompA.execute
+
+        if opts.get("twin_feedbacks"):
+            opts["twin_feedbacks"](H, CompTwin, feedback)
+
+        class Robot(RobotBase0):
+            c1: CompTwin
+            c2: CompTwin
+        comps = ["c1", "c2"]
+    elif layout == "R4":
+        # a StateMachine component declared after a plain one (and before another plain one)
+        class CompSM(magicbot.StateMachine):
+            NAME = "c2"
+
+            def __init__(self):
+                H.log.add("ctor", "c2")
+
+            def setup(self):
+                H.callback("c2.setup", "c2")
+
+            def on_enable(self):
+                H.callback("c2.on_enable", "c2")
+
+            def on_disable(self):
+                super().on_disable()
+                H.callback("c2.on_disable", "c2")
+
+            def execute(self):
+                H.callback("c2.execute", "c2")
+                super().execute()
+
+            @magicbot.state(first=True)
+            def idle(self):
+                pass
+
+        class Robot(RobotBase0):
+            c1: CompA
+            c2: CompSM
+            c3: CompC
+        comps = ["c1", "c2", "c3"]
     else:
         raise ValueError(layout)
     hooks = {"c1": {"setup", "on_enable", "on_disable"}, "c2": {"setup", "on_enable", "on_disable"}, "c3": set()}
